@@ -216,6 +216,18 @@ func (ex *Ex) callByContract(fr *Frame, st *State, ins ssa.Instruction, callee *
 		}
 		ex.note(fmt.Sprintf("assumed contract of %s (%s)", cname, why))
 	}
+	// a local object handed to the callee by address escapes here: the callee's contract speaks
+	// about (and its assigns clause havocs) heap fields, so the object has to live on the heap
+	// BEFORE the precondition is evaluated and the frame is havoced - otherwise the local copy
+	// keeps its pre-call content and contradicts the callee's postconditions (vacuous paths)
+	for i := range args {
+		if l := args[i].Ptr; l != nil && l.Cell > 0 && l.Ref == nil && len(l.Path) == 0 {
+			if _, isStruct := st.cellType[l.Cell].Underlying().(*types.Struct); isStruct {
+				r := ex.materialize(fr, st, l.Cell)
+				args[i] = Val{Ptr: &Loc{Ref: r, Pointee: l.Pointee}}
+			}
+		}
+	}
 	// environment over callee parameters
 	cf := &Frame{Fn: callee, Ctr: ctr, Parent: fr, Name: cname, Depth: fr.Depth + 1}
 	pre := st.Clone()
@@ -243,7 +255,9 @@ func (ex *Ex) callByContract(fr *Frame, st *State, ins ssa.Instruction, callee *
 			unsupp("contract of %s: %v", cname, err)
 		}
 		name := fmt.Sprintf("%s#call.%d.%s.pre.%d", ex.topPrefix(fr), ord, shortFn(cname), rq.Ord)
+		ex.scopedPre = len(rq.Props) > 0
 		ex.oblige(fr, st, name, "callpre", ex.safetyProps(fr), "precondition of "+cname+": "+rq.Text, t, posOf(ins))
+		ex.scopedPre = false
 	}
 	for _, mp := range ctr.MayPanic {
 		cond := tTrue
